@@ -264,6 +264,15 @@ def _w(xs):
   return [float(i + 1) for i in range(len(xs))]
 
 
+def _wfit(xs):
+  """Fitness-based weights (the usual choice): the result must follow the fitness the parents carry NOW."""
+  return [float(evo.get_fitness(x)) for x in xs]
+
+
+# operator labels without random state: each call's output depends on parameters and inputs only
+RNGFREE = ('recombinators.Average', 'recombinators.WeightedAverage', 'recombinators.Segmented', 'selectors.Proportional')
+
+
 def catalogue(thorough: bool):
   cat = []
   only_choices = lambda d: isinstance(d.spec, pg.geno.Choices)      # pylint: disable=unnecessary-lambda-assignment
@@ -280,6 +289,9 @@ def catalogue(thorough: bool):
       ('recombinators.Average()', 'recombinators.Average', 'recombinator', lambda s: R.Average(), 1, None),
       ('recombinators.WeightedAverage(w)', 'recombinators.WeightedAverage', 'recombinator',
        lambda s: R.WeightedAverage(_w), 1, None),
+      ('recombinators.WeightedAverage(fitness)', 'recombinators.WeightedAverage', 'recombinator',
+       lambda s: R.WeightedAverage(_wfit), 1, None),
+      ('recombinators.Sample(fitness)', 'recombinators.Sample', 'recombinator', lambda s: R.Sample(_wfit, seed=s), 1, None),
       ('recombinators.KPoint(1)', 'recombinators.KPoint', 'recombinator', lambda s: R.KPoint(1, seed=s), 2, 2),
       ('recombinators.KPoint(2)', 'recombinators.KPoint', 'recombinator', lambda s: R.KPoint(2, seed=s), 2, 2),
       ('recombinators.Segmented([1])', 'recombinators.Segmented', 'recombinator', lambda s: R.Segmented(lambda xs: [1]), 2, 2),
@@ -312,6 +324,11 @@ def random_selectors():
                 (lambda n_: lambda s: S.Sample(n_, _w, seed=s))(n), cnt, False, True))
     out.append((f'selectors.Proportional({n})', 'selectors.Proportional',
                 (lambda n_: lambda s: S.Proportional(n_, _w))(n), cnt, False, True))
+  for n in (1, 2):
+    out.append((f'selectors.Sample({n}, fitness)', 'selectors.Sample',
+                (lambda n_: lambda s: S.Sample(n_, _wfit, seed=s))(n), (lambda n_: lambda ln: n_)(n), False, True))
+    out.append((f'selectors.Proportional({n}, fitness)', 'selectors.Proportional',
+                (lambda n_: lambda s: S.Proportional(n_, _wfit))(n), (lambda n_: lambda ln: n_)(n), False, True))
   return out
 
 
@@ -370,7 +387,8 @@ def _apply(op, inputs, limit: float = 10.0):
 
 def record_event(space: SpaceC, inputs: List[pg.DNA], in_ids: List[int], fits: List[int], label: str, cls: str,
                  kind: str, factory, seed: int, expr: Optional[dict] = None, det: bool = False,
-                 count: int = -1, submulti: bool = False, cache: Optional[dict] = None) -> dict:
+                 count: int = -1, submulti: bool = False, cache: Optional[dict] = None,
+                 session: bool = False, rngfree: bool = False) -> dict:
   """Applies the operator (twice: fresh instance, same seed) to the population list `inputs`.
 
   `inputs` is the caller's list OBJECT and is handed to the operator as it is, both times; the event logs what
@@ -425,20 +443,79 @@ def record_event(space: SpaceC, inputs: List[pg.DNA], in_ids: List[int], fits: L
       res.append(r)
     return res
 
-  out1, raised = _apply(factory(seed), inputs)
+  op1, op2 = factory(seed), factory(seed)
+  out1, raised = _apply(op1, inputs)
   d1 = describe(out1, True)
   after = content(inputs)
-  out2, raised2 = _apply(factory(seed), inputs)
+  out2, raised2 = _apply(op2, inputs)
   d2 = describe(out2, False)
   after2 = content(inputs)
   if len(after2) != len(orig) or any(a is not b for a, b in zip(list(inputs), orig)):
     if [x['id'] for x in after] == list(in_ids) and [x['dna'] for x in after] == before:
       after = after2                       # only the second application corrupted the population
     inputs[:] = orig                       # later events start from the original population again
+  calls = []
+  if session and not raised and not raised2:
+    calls = _session(space, op1, op2, factory, seed, orig, in_ids, fits, rngfree)
   return dict(op=label, cls=cls, kind=kind, det=det, expr=expr or dict(BLANK, op='opaque'), seed=seed,
               **{'in': [dict(id=i, dna=b, fit=f) for i, b, f in zip(in_ids, before, fits)]},
               in_after=after, out=d1, out2=d2, count=count, submulti=submulti,
-              raised=raised or raised2)
+              raised=raised or raised2, rngfree=rngfree, calls=calls)
+
+
+def _session(space: SpaceC, op1, op2, factory, seed: int, orig: List[pg.DNA], in_ids: List[int], fits: List[int],
+             rngfree: bool) -> List[dict]:
+  """Keeps using the operator INSTANCE `op1` (already applied once to the population): value-equal parents with
+  new fitness, the original population again, a different population, the original once more.  Every result
+  is logged next to a reference: for an operator without random state, what a FRESHLY constructed operator
+  returns for the same input (the output may depend on parameters and inputs only, not on earlier calls); for
+  a seeded operator, what a second instance with the same seed returns along the same call sequence."""
+  def twin(new_fits):
+    objs = {}
+    lst = []
+    for d, i, f in zip(orig, in_ids, new_fits):
+      if i not in objs:
+        objs[i] = pg.DNA.from_numbers(d.to_numbers(), space.spec)
+        evo.set_fitness(objs[i], float(f))
+      lst.append(objs[i])
+    return lst
+  by_id = {}
+  for i, f in zip(in_ids, fits):
+    by_id.setdefault(i, f)
+  distinct = sorted(by_id)
+  rev = dict(zip(distinct, [by_id[i] for i in reversed(distinct)]))
+  if len(distinct) == 1:
+    rev = {distinct[0]: by_id[distinct[0]] + 7}
+  refit = [rev[i] for i in in_ids]
+  seqs = [('value-equal, new fitness', twin(refit), in_ids),
+          ('same population', list(orig), in_ids),
+          ('reversed population', list(reversed(orig)), list(reversed(in_ids))),
+          ('value-equal, new fitness (2)', twin([f + 3 for f in refit]), in_ids),
+          ('same population (2)', list(orig), in_ids)]
+  calls = []
+  for what, lst, ids_ in seqs:
+    def desc(outs, err):
+      if err:
+        return [dict(id=-1, dna=[])]
+      res = []
+      for o in outs:
+        ident = 0
+        for d, i in zip(lst, ids_):
+          if d is o:
+            ident = i
+            break
+        res.append(dict(id=ident, dna=space.nested(o)[0] if isinstance(o, pg.DNA) else []))
+      return res
+    keep = list(lst)
+    o1, e1 = _apply(op1, lst)
+    lst[:] = keep
+    if rngfree:
+      o2, e2 = _apply(factory(seed), lst)
+    else:
+      o2, e2 = _apply(op2, lst)
+    lst[:] = keep
+    calls.append(dict(what=what, out=desc(o1, e1), ref=desc(o2, e2)))
+  return calls
 
 
 def populations(space: SpaceC, rng: random.Random, n_pops: int):
@@ -488,31 +565,36 @@ def record_space(args) -> List[dict]:
         # the same list objects are handed to consecutive applications (`dnas`, or `pair` for 2-parent operators)
         sub = slice(0, exact) if exact else slice(0, ln)
         plist = pair if exact == 2 else dnas
-        ev.append(record_event(space, plist, ids[sub], fits[sub], label, cls, kind, factory, sd, cache=cache))
+        ev.append(record_event(space, plist, ids[sub], fits[sub], label, cls, kind, factory, sd, cache=cache,
+                               session=s == 0, rngfree=label.startswith(RNGFREE)))
         if 'where=ANY' in label:     # which decision point is crossed depends on the seed: try a few more
           for extra in range(1, 5):
             ev.append(record_event(space, plist, ids[sub], fits[sub], label, cls, kind, factory, sd + 10 * extra,
                                    cache=cache))
       for label, cls, factory, cnt, submulti, nonempty in random_selectors():
-        ev.append(record_event(space, dnas, ids, fits, label, cls, 'selector', factory, sd, count=cnt(ln), submulti=submulti, cache=cache))
+        ev.append(record_event(space, dnas, ids, fits, label, cls, 'selector', factory, sd, count=cnt(ln), submulti=submulti,
+                               cache=cache, session=s == 0 and ('fitness' in label or '(1' in label or '(2' in label),
+                               rngfree=label.startswith(RNGFREE)))
       for label, uses, factory in mixed_exprs():
         if 'KPoint' in label and ln < 2:
           continue
-        ev.append(record_event(space, dnas, ids, fits, label, f'expr[{uses}]', 'expr', factory, sd, cache=cache))
+        ev.append(record_event(space, dnas, ids, fits, label, f'expr[{uses}]', 'expr', factory, sd, cache=cache,
+                               session=s == 0))
     # deterministic selectors and expressions over them (seed independent)
     for e in sel_leaves():
       if e['op'] == 'identity':
         continue
       cnt = min(ln, (-(-ln * e['pct'] // 100)) if e['pct'] else (ln if e['n'] < 0 else e['n']))
       ev.append(record_event(space, dnas, ids, fits, json.dumps({k: e[k] for k in ('op', 'n', 'pct')}), 'selectors.' + e['op'].capitalize(),
-                             'selector', (lambda e_: lambda s: real_op(e_))(e), 0, expr=e, det=True, count=cnt, submulti=True, cache=cache))
+                             'selector', (lambda e_: lambda s: real_op(e_))(e), 0, expr=e, det=True, count=cnt, submulti=True, cache=cache,
+                             session=True, rngfree=True))
     exprs = list(d1) if pi == 0 or thorough else rng.sample(d1, len(d1) // 4)
     exprs += gen_exprs(rng, 2, depth2)
     if thorough:
       exprs += gen_exprs(rng, 3, depth2 // 2)
-    for e in exprs:
+    for k, e in enumerate(exprs):
       ev.append(record_event(space, dnas, ids, fits, 'expr', 'expr[selectors]', 'expr', (lambda e_: lambda s: real_op(e_))(e), 0,
-                             expr=e, det=True, cache=cache))
+                             expr=e, det=True, cache=cache, session=k % 8 == 0, rngfree=True))
     traces.append(dict(id=f'{name}-p{pi}', space=name, spec=struct, ev=ev))
   # every valid DNA as single parent of the mutators, (a sample of) all ordered pairs as parents of the recombinators
   if space.valid and part == 'all':
